@@ -1,6 +1,7 @@
-// TRUSTED WALKER CONTRACTS -- functions of /repo/src/traverse.rs that are outside Verus' language (closures capturing
-// FnMut, `?` on ControlFlow, try_for_each). Each contract below is assumed here and is the assertion set of a
-// bounded Kani harness on the real function (DESIGN 3.5); results that lean on them say so.
+// CONTRACT of traverse::find_symbol, a 10-line adapter around walk_symbols_with_control_flow (closure that answers
+// Break(symbol) when the predicate holds). The walker itself is PROVED in unit v_walksym (visits symbols_of(ast, filter) in
+// order, stops at the first Break and returns it); the adapter is assumed here and compared with a reference traversal by
+// the bounded oracle replay/c15_traversal.rs.
 #[verifier::external_body]
 fn find_symbol<'a, F>(ast: &'a ast::Aidl, filter: SymbolFilter, f: F) -> (r: Option<Symbol<'a>>)
     where F: FnMut(&Symbol<'a>) -> bool
